@@ -431,6 +431,17 @@ class RecHarness:
             w.stop_issued = True
             w.oblig = []
             w.spawn(f"rl_stop#{w.counter}", lambda: w.rl.stop())
+        elif label == "tcp_cancelled":
+            # the pending connect of the socket is cancelled from outside the manager's task (a library underneath giving up, an
+            # application-wide cancel scope): one more way for an attempt to fail
+            io = True
+            s = w.net.connecting()[0]
+            key = w.loop._selector.get_key(s.fd)
+            fut = next((a for h in key.data if h is not None for a in getattr(h, "_args", ()) if hasattr(a, "cancel") and hasattr(a, "done")), None)
+            if fut is None:
+                raise HarnessError("no pending connect future found for the connecting socket")
+            w.note("io_connect_cancelled", s.fd)
+            fut.cancel()
         elif label in ("tcp_ok", "tcp_refused"):
             io = True
             if not w.net.connecting():
@@ -623,7 +634,7 @@ def linear_runs(res: Result) -> dict[str, Any]:
     table: dict[str, list[float]] = {}
     runs = 0
     for cls, steps in (("tcp_refused", ["tcp_refused"]), ("eof_in_handshake", ["tcp_ok", "eof"]), ("bad_pw", ["tcp_ok", "bad_pw"]),
-                       ("marker01", ["tcp_ok", "marker01"]), ("handshake_silence", ["tcp_ok", "time"]),
+                       ("marker01", ["tcp_ok", "marker01"]), ("handshake_silence", ["tcp_ok", "time"]), ("tcp_cancelled", ["tcp_cancelled"]),
                        ("mixed", None), ("long_outage", ["tcp_refused"]), ("key_with_nbsp", ["tcp_ok"]), ("key_not_base64", ["tcp_ok"])):
         h = h_key1 if cls == "key_with_nbsp" else h_key2 if cls == "key_not_base64" else h0
         w = h.fresh()
